@@ -273,9 +273,11 @@ def r20_4(run):
         upd = loop["env"].get(lst[2]) if loop else None
         it_ok = loop is not None and tkey(loop["iter"]) == tkey(expect(ix, f, "multinet['nets'].keys()"))
         member = expect(ix, f, "ctrl_variables['nets'][K]['converged']", env={"K": ("loop", lid, 0)})
-        ok2 = it_ok and upd is not None and upd[0] == "opn" and upd[1] == "+" and any(x[0] == "carried" for x in upd[2]) \
+        parts = list(upd[2]) if upd is not None and upd[0] == "opn" and upd[1] == "+" else \
+            ([upd[2], upd[3]] if upd is not None and upd[0] == "op" and upd[1] == "++" else [])
+        ok2 = it_ok and any(x[0] == "carried" for x in parts) \
             and any(x[0] == "list" and len(x[1]) == 1 and x[1][0][0] == "idx" and x[1][0][2] == (C("converged"),) and contains(x[1][0], ("loop", lid, 0))
-                    for x in upd[2])
+                    for x in parts)
     run.ob("evaluate|all-members-counted", ok2, "every member net of multinet['nets'] contributes its verdict", w)
     rn = ix.func(MRC + "._relevant_nets")
     st = [s_ for s_ in r.stores() if s_.loops and s_.base == expect(ix, f, "ctrl_variables['nets']")]
